@@ -774,7 +774,19 @@ def classify_optimum(info, tres, bres, to_t, to_b, shift, ctol):
     KEY_SCIPY_MIN: transformation = scaling AND backend = scipy AND one of the two fits stopped short of the minimum of its
     *own* cost function: the cost of the transformed fit at the (scaled) base optimum is measurably lower (> 1e-5, three orders
     above the pre-fit agreement of the two cost functions) than at its reported optimum, or vice versa."""
-    if info["kind"] != "scaling" or info["minimizer"] != "scipy":
+    if info["minimizer"] != "scipy":
+        return None
+    if info["kind"] != "scaling":
+        # permutations: the two fits minimise the same function of the same numbers; if repeating do_fit() on the fit that reports the
+        # higher cost lowers it measurably, that fit had stopped short - the signature of the open scipy-adapter finding
+        try:
+            hi = info["built"] if tres["cost"] > bres["cost"] else info["base_built"]
+            c_before = float(hi.fit.cost_function_value)
+            hi.fit.do_fit()
+            if float(hi.fit.cost_function_value) < c_before - (ctol + 1e-8 * abs(c_before)):
+                return "C06/scipy-backend-accepts-unconverged-result"
+        except Exception:
+            return None
         return None
     try:
         ft = info["built"].fit._fitter._fcn_wrapper
@@ -956,6 +968,17 @@ def compare_triple(ctx, case, vi, base, bres, sig_b, guards):
     # Minuit2's HESSE with strategy 1 (kafe2's setting) iterates its step sizes only until the second derivatives change by less
     # than 5 % (MnStrategy: HessianG2Tolerance = 0.05, at most 3 cycles): exact for a parabolic cost, +-2.5 % in sigma otherwise
     etol = 2e-2 if (mini == "scipy" or guards["parabolic"]) else 5e-2
+    if mini == "iminuit" and not guards["parabolic"]:
+        # ... and a relative error eps in a diagonal element of the Hessian moves the variance by eps / (1 - rho_k^2) (rho_k: global
+        # correlation coefficient; same yardstick as C07): sigma tolerance 0.5 * 5 % * max_k C_kk (C^-1)_kk, capped at 15 %
+        # (thorough tier: cubic polynomial with x errors, rho^2 ~ 0.99, uncertainties 3.5-6.4 % apart after scaling by 52)
+        try:
+            _cr = np.array(guards["cov_ref"], dtype=float)
+            _amp = float(np.max(np.diag(_cr) * np.diag(np.linalg.inv(_cr))))
+            if np.isfinite(_amp):
+                etol = max(etol, min(0.15, 0.025 * _amp))
+        except Exception:
+            pass
     free_t = [i for i, n in enumerate(names_t) if n not in problem["fixed"]]
     fix_t = [i for i, n in enumerate(names_t) if n in problem["fixed"]]
     sig_t = np.array([sig_b.get(n, 0.0) for n in names_t]) * fac
